@@ -167,6 +167,18 @@ def step (s : St) (ws : List String) : St × String :=
     match parseTxId id with
     | some t => (s, match tmGetStatus s.node.led t with | some st => toString st.toNat | none => "none")
     | none => (s, "none")
+  | ["q", "gtx", id] =>
+    match parseTxId id with
+    | some t =>
+      match s.node.led.getS (.child t) with
+      | some (.gid gid) =>
+        match s.node.led.getS (.glob gid) with
+        | some (.glob g) =>
+          let cs := sortStrings (g.children.map fun p => s!"{TxId.str p.1}={p.2.toNat}")
+          (s, s!"g={g.state.toNat} h={g.height} n={g.count} children=[{joinC cs}]")
+        | _ => (s, "none")
+      | _ => (s, "none")
+    | none => (s, "none")
   | ["q", "ic", svc] =>
     match parseSvc svc with
     | some sid =>
